@@ -52,6 +52,12 @@ fn convert_base<const B: Word, const NewB: Word>(&self, repr: Repr<B>) -> Rounde
                 } @*/
                 let signif = repr.significand * B.pow(rem as u32);
                 /*@ let ghost (sig0, e0) = (repr.significand.v(), repr.exponent as int); @*/
+                /*@ proof {
+                    // room for the exponent of Repr::new: (signif, exp) is one of the representations cb_pre speaks about
+                    assert(e0 - n * exp == rem);
+                    assert(same_value(B as int, signif.v(), n * exp, sig0, e0));
+                    assert(exp_in_range(NewB as int, signif.v(), exp as int));
+                } @*/
                 let repr = Repr::new(signif, exp);
                 /*@ proof {
                     lemma_rebase_up(B as int, NewB as int, n as nat, sig0, e0, rem as int, signif.v(), exp as int,
@@ -77,6 +83,9 @@ fn convert_base<const B: Word, const NewB: Word>(&self, repr: Repr<B>) -> Rounde
                             && (s1 == 0 ==> sig0 == 0) by {
                         if s1 == 0 { lemma_same_value_zero(NewB as int, s1, e1, sig0, exp as int); }
                     }
+                    // room for the exponent of Repr::new: (sig0, exp) itself is one of these representations
+                    lemma_same_value_refl(NewB as int, sig0, exp as int);
+                    assert(exp_in_range(NewB as int, sig0, exp as int));
                 } @*/
                 return self.repr_round(Repr::new(repr.significand, exp));
             }
